@@ -150,6 +150,22 @@ func (g *G) stmt(c *gctx) []*N {
 	add(b2i(P.Scopes, 10, 3), func() []*N { return []*N{{K: "var", Ps: []string{g.name()}, Ns: []*N{g.iexpr(c, 2)}}} })
 	add(10, func() []*N { return []*N{{K: "expr", Ns: []*N{P1(g.id(), Id(g.name()))}}} })
 	add(b2i(P.Scopes, 6, 1), func() []*N { return []*N{g.existProbe()} })
+	add(b2i(P.Scopes, 3, 0), func() []*N {
+		// several names, ONE list-valued right-hand side: var binds every name here, the
+		// assignment form updates the nearest bindings
+		g.feat("two_names_one_list_value")
+		a, b := g.name(), g.name()
+		kind := "var"
+		if g.chance(35) {
+			kind = "let"
+		}
+		var rhs *N = &N{K: "list", Ns: []*N{g.val(), g.val()}}
+		if f, ok := g.pickFn(c, "pair"); ok && g.chance(50) {
+			rhs = g.callExpr(c, f, 1)
+		}
+		return []*N{{K: kind, Ps: []string{a, b}, Ns: []*N{rhs}}, {K: "expr", Ns: []*N{P1(g.id(), Id(a))}}}
+	})
+	add(b2i(P.Scopes, 2, 0), func() []*N { return g.cforOuterCounter(c) })
 	add(2, func() []*N {
 		// multi assignment
 		a, b := g.name(), g.name()
@@ -179,6 +195,7 @@ func (g *G) stmt(c *gctx) []*N {
 			add(7, func() []*N { return g.scopeCross(c) })
 			add(2, func() []*N { return g.selfName(c) })
 			add(3, func() []*N { return g.closureFactory(c) })
+			add(3, func() []*N { return g.nestedCallArgs(c) })
 		}
 	}
 	if len(c.fns) > 0 {
@@ -1112,4 +1129,68 @@ func (g *G) callbackStmt(c *gctx) *N {
 		call = &N{K: "call", S: "geach", Ns: []*N{items, {K: "fn", Ps: []string{"cbx"}, Ss: [][]*N{body}}}}
 	}
 	return &N{K: "expr", Ns: []*N{P1(g.id(), call)}}
+}
+
+// cforOuterCounter: a C-style loop whose init clause assigns a name of the pool (usually bound
+// outside already): the loop works on that binding, which is read during and after the loop.
+func (g *G) cforOuterCounter(c *gctx) []*N {
+	v := g.name()
+	bound := int64(g.n(1, 3, "ocbound"))
+	g.nextFn++
+	rd := fmt.Sprintf("rd%d", g.nextFn)
+	body := []*N{{K: "expr", Ns: []*N{P1(g.id(), Id(v))}}, {K: "expr", Ns: []*N{P1(g.id(), &N{K: "call", S: rd})}}}
+	g.feat("cfor_counter_is_a_pool_name")
+	return []*N{
+		{K: "expr", Ns: []*N{{K: "fn", S: rd, Ss: [][]*N{{{K: "ret", Ns: []*N{&N{K: "coal", Ns: []*N{Id(v), Str("undef")}}}}}}}}},
+		{K: "cfor", Ns: []*N{{K: "let", Ps: []string{v}, Ns: []*N{Int(0)}}, Bin("<", Id(v), Int(bound)), {K: "inc", S: v, I: 1}}, Ss: [][]*N{body}},
+		{K: "expr", Ns: []*N{P1(g.id(), &N{K: "coal", Ns: []*N{Id(v), Str("undef")}})}},
+		{K: "expr", Ns: []*N{P1(g.id(), &N{K: "call", S: rd})}},
+	}
+}
+
+// nestedCallArgs: a script function of 2..4 parameters is called with arguments that contain
+// several calls of script functions themselves (after an argument that is already evaluated).
+func (g *G) nestedCallArgs(c *gctx) []*N {
+	g.nextFn++
+	id := fmt.Sprintf("nid%d", g.nextFn)
+	pick := fmt.Sprintf("npk%d", g.nextFn)
+	n := g.n(2, 4, "nparams")
+	params := []string{"x0", "x1", "x2", "x3"}[:n]
+	l := &N{K: "list"}
+	for _, p := range params {
+		l.Ns = append(l.Ns, Id(p))
+	}
+	call1 := func() *N { return &N{K: "call", S: id, Ns: []*N{g.val()}} }
+	var arg func(d int) *N
+	arg = func(d int) *N {
+		switch g.n(0, 4, "nestarg") {
+		case 0:
+			return g.val()
+		case 1:
+			return call1()
+		case 2:
+			return Bin("+", call1(), call1())
+		case 3:
+			if d > 0 {
+				inner := &N{K: "call", S: pick}
+				for i := 0; i < n; i++ {
+					inner.Ns = append(inner.Ns, arg(d-1))
+				}
+				return &N{K: "len", Ns: []*N{inner}}
+			}
+			return call1()
+		default:
+			return &N{K: "call", S: id, Ns: []*N{call1()}}
+		}
+	}
+	outer := &N{K: "call", S: pick}
+	for i := 0; i < n; i++ {
+		outer.Ns = append(outer.Ns, arg(1))
+	}
+	g.feat("nested_script_calls_in_arguments")
+	return []*N{
+		{K: "expr", Ns: []*N{{K: "fn", S: id, Ps: []string{"v"}, Ss: [][]*N{{{K: "ret", Ns: []*N{Id("v")}}}}}}},
+		{K: "expr", Ns: []*N{{K: "fn", S: pick, Ps: params, Ss: [][]*N{{{K: "ret", Ns: []*N{l}}}}}}},
+		{K: "expr", Ns: []*N{P1(g.id(), outer)}},
+	}
 }
